@@ -130,3 +130,26 @@ Section NMapLemmas.
     destruct IH as [k Hk]; [discriminate|]. exists k. exact Hk.
   Qed.
 End NMapLemmas.
+
+(* ---------- sums over a map ---------- *)
+Section NSum.
+  Context {A : Type}.
+  Variable f : A -> N.
+  Definition nsum (m : nmap A) : N := sumN (map (fun kv => f (snd kv)) m).
+
+  Lemma nsum_ninsert (m : nmap A) k v :
+    sorted m -> nsum (ninsert k v m) + match nfind k m with Some v0 => f v0 | None => 0 end = nsum m + f v.
+  Proof.
+    unfold nsum. induction m as [|[k' v'] r IH]; cbn; [intros _; lia|]. intros [Hlt Hs].
+    destruct (k <? k') eqn:E1; cbn.
+    - assert (E : (k =? k') = false) by lia. rewrite E.
+      rewrite (notin_nfind_none k r); [lia|]. intros Hin. apply Hlt in Hin. lia.
+    - destruct (k =? k') eqn:E2; cbn; [lia|]. specialize (IH Hs). lia.
+  Qed.
+  Lemma nsum_nremove (m : nmap A) k :
+    nsum (nremove k m) + match nfind k m with Some v0 => f v0 | None => 0 end = nsum m.
+  Proof.
+    unfold nsum. induction m as [|[k' v'] r IH]; cbn; [lia|].
+    destruct (k =? k') eqn:E; cbn; [lia|]. lia.
+  Qed.
+End NSum.
